@@ -197,16 +197,13 @@ impl Constraints {
                 // Direct generation when `from` is less than `to`
                 from + rng.gen_range(0.0..(to - from))
             } else {
-                // Wrap-around case: generate an angle based on two segments
-                let range_length = (2.0 * PI - (from - to)).abs();
-                let segment = rng.gen_range(0.0..range_length);
-
-                // Determine which segment to take (before or after the wrap)
-                if segment < (2.0 * PI - from) {
-                    from + segment // Within the forward wrap
-                } else {
-                    to + (segment - (2.0 * PI - from)) // After the wrap
+                // Wrap-around case: the arc starts at `from` and runs in the positive
+                // direction until `to` is reached modulo the full turn.
+                let mut range_length = (to - from).rem_euclid(2.0 * PI);
+                if range_length == 0.0 {
+                    range_length = 2.0 * PI; // from == to: the joint is not constrained
                 }
+                from + rng.gen_range(0.0..range_length)
             };
             random_angle
         }
